@@ -9,7 +9,7 @@ from xml.etree.ElementTree import QName
 
 from harness.common import PART, concretize, known, result, untraced
 from harness.models import *  # noqa: F401,F403
-from harness.models import Bag, Outer
+from harness.models import Bag, Deep, Outer
 from vlib.jobs import Job
 
 from xsdata.formats.dataclass.serializers.code import PycodeSerializer
@@ -53,6 +53,10 @@ POOL = [
     Outer(shade=Outer.Shade.LIGHT), Outer(inner=Outer.Inner(words=("x",))),
     Bag(v=(1, 2)), Bag(v=(1,)), Bag(v=()), Bag(v=[[1, [2, (3, 4)]], {}]), Bag(v={"a": [1], "b": {"c": (NAN, None)}}), Bag(v={1, 2}), Bag(fz=frozenset({1})),
     Bag(vs=[None, True, 1, 1.5, "s", b"b", Decimal("1"), QName("q"), Color.RED, Outer.Shade.DARK, XmlDate(1, 1, 1)]), Bag(m={"k": "v", "we\"ird": 1, "": None}),
+    QNames(q=QName("c:\\temp\\new"), qa=QName("a\\x41b"), qs=[QName("{urn:a}t\\u0041"), QName("dbl\\\\slash")]),
+    Deep(mid=Deep.Mid(leaf=Deep.Mid.Leaf(n=1), kind=Deep.Mid.Kind.B)), Deep(mid=Deep.Mid(kind=Deep.Mid.Kind.A), level=Deep.Level.HIGH),
+    Deep(langs=[], pair=(), opts={}, level=None, text=None), Deep(langs=["en", "de"], pair=(1, 2)), Deep(langs=["fr"], pair=(3,), opts={"x": "y"}, text=""),
+    Bag(v=Deep.Mid.Leaf(n=2)), Bag(vs=[Deep.Mid.Kind.A, Deep.Level.LOW]),
     Bag(v=float("inf")), Bag(v=Num.ONE), Bag(v=XmlDuration("PT1.5S")), Bag(v=XmlPeriod("2021Z")), Bag(v=set()),
 ]
 VARS = ["obj", "v", "_x1"]
